@@ -134,8 +134,9 @@ impl GitDiff {
         let repo = self.open_repo()?;
 
         // Get index (staging area)
+        // A repository in which nothing was ever added has no index file: that is an empty index.
         let index = repo
-            .open_index()
+            .index_or_empty()
             .map_err(|e| SlocGuardError::Git(format!("Failed to open git index: {e}")))?;
 
         // Get HEAD tree (if exists) - new repos have no commits yet
